@@ -27,7 +27,8 @@ def run(ctx, log):
         prefix = [(k, []) for k in ["A", "A", "F"]]
         seqs += list(gccheck.enum_sequences(prefix, 2, 3))
     gccheck.run_sequences(ctx, seqs, log, "C03")
-    progs = list(gccheck.ALLOC_CORPUS) + gccheck.gen_alloc_programs(rng, 300 if ctx.quick else 6000)
+    wv = list(gccheck.ALLOC_CORPUS_WITH_VALUE)
+    progs = list(gccheck.ALLOC_CORPUS) + gccheck.gen_alloc_programs(rng, 300 if ctx.quick else 6000, with_value_out=wv)
     obs = runcorr.run_corr(ctx, progs, log, budget=50000, stages=("eval",), label="alloc-programs")
     ev = obs["eval"]
     ncoll = 0
@@ -37,7 +38,7 @@ def run(ctx, log):
         ncoll += runs
         gccheck.judge_run(ctx, s, o, "C03")
     ctx.count("collections-observed", ncoll)
-    for i, impl, spec in runcorr.run_sem(ctx, progs, ev, log):
+    for i, impl, spec in runcorr.run_sem(ctx, progs, ev, log, with_value=wv):
         ctx.violate("the program's result differs from what its source denotes (a reclaimed or recycled value would do this)",
                     source=progs[i], observed=impl, specification=spec)
     ctx.sample(dict(source=progs[1], impl=ev[1][:200]))
